@@ -351,6 +351,12 @@ func (r *runner) exec(o hx.Op) (line string) {
 			return "bad-op"
 		}
 		return r.drain(nil)
+	case "conc":
+		r.conc(o)
+		return "ok"
+	case "badger":
+		r.badger(o)
+		return "ok"
 	}
 	return "bad-op"
 }
